@@ -13,7 +13,7 @@ THEOREMS = ["SigpyVerif.C09." + t for t in [
     "resize_default_aligns", "resize_in_bounds", "resize_transpose", "resize_default_swap",
     "roll_inverse", "roll_in_range", "downsampleLen_spec", "upsampleLen_eq_downsampleLen",
     "up_down_index", "up_test_is_sample", "numBlks_maximal", "numBlks_sites_agree",
-    "a2b1_mem", "b2a1_mem", "b2a1_transpose_a2b1", "a2b2_mem", "b2a2_mem", "a2b3_mem", "b2a3_mem",
+    "a2b1_mem", "b2a1_mem", "b2a1_transpose_a2b1", "sliceLen_eq_advertised", "flip_index", "a2b2_mem", "b2a2_mem", "a2b3_mem", "b2a3_mem",
 ]]
 
 
